@@ -87,7 +87,7 @@ def rand_filter(rnd, st, monitor):
 
 
 def gen_history(rnd, n_events):
-    st = {"live": [], "ever": [], "mons": [], "serial": {}, "next": 0, "pending": [], "owners": {}, "unpriv": set(), "held": set()}
+    st = {"live": [], "ever": [], "mons": [], "serial": {}, "next": 0, "pending": [], "owners": {}, "unpriv": set(), "held": set(), "held_names": set()}
     ev = []
 
     def ser(c, reuse=False):
@@ -125,7 +125,7 @@ def gen_history(rnd, n_events):
         live = st["live"]
         if r < 0.45 and live:
             return "u%d" % rnd.choice(live)
-        if r < 0.62:
+        if r < 0.58:
             return "n%d" % rnd.randrange(N_NAMES)
         if r < 0.72:
             return "n%d" % rnd.choice(ACTIVATABLE)        # a name with a service file: held for activation if nobody owns it
@@ -160,6 +160,7 @@ def gen_history(rnd, n_events):
             ev.append("S.%d.c.%s.%d.%d.%d.0.0.%d.%d" % (c, d, iface, member, s, nr, na))
             if d in ("n4", "n5") and not na and not st["owners"].get(d):
                 st["held"].add(c)
+                st["held_names"].add(int(d[1:]))
             if d.startswith("u") and int(d[1:]) in st["live"] and not nr:
                 st["pending"].append((c, int(d[1:]), s))
             elif d.startswith("n") and st["owners"].get(d) and not nr:
@@ -243,6 +244,9 @@ def gen_history(rnd, n_events):
         elif r < 0.27:
             c = rnd.choice(ords)
             n = rnd.randrange(N_NAMES) if rnd.random() < 0.8 else rnd.choice(ACTIVATABLE)
+            if st["held_names"] and rnd.random() < 0.5:
+                n = rnd.choice(sorted(st["held_names"]))          # somebody provides the awaited service
+                st["held_names"].discard(n)
             dnq = 1 if rnd.random() < 0.25 else 0
             ev.append("R.%d.%d.%d.%d" % (c, ser(c), n, dnq))
             q = st["owners"].setdefault("n%d" % n, [])
